@@ -8,7 +8,7 @@ from common import Check, coq_list, zlit
 import ewald_oracle as eo
 
 THEOREMS = ["C10_constants_are_self_plus_background", "C10_total_is_sum_of_parts", "C10_half_space_picks_one_of_each_pair", "C10_generated_gpoints_are_the_half_space",
-            "C10_structure_factor_is_pair_sum", "C10_cross_term_is_pair_sum", "C10_reciprocal_term_ignores_lattice_translation", "C10_pair_term_is_even_in_G"]
+            "C10_structure_factor_is_pair_sum", "C10_cross_term_is_pair_sum", "C10_reciprocal_term_ignores_lattice_translation", "C10_pair_term_is_even_in_G", "C10_contractions_pair_like_axes"]
 S_OPEN = "pyqmc/observables/energy.py:OpenCoulomb"
 S_EW = "pyqmc/observables/ewald.py:Ewald.energy"
 S_ACC = "pyqmc/observables/accumulators.py:EnergyAccumulator.__call__"
